@@ -7,29 +7,6 @@ import PySMT.Impl.WF
 namespace PySMT.Subst
 open PySMT.Build
 
-/-- no array value with assigned pairs (`Array(idx, default)` only): the fragment of the
-type / semantic theorems (see `Props/C05.lean`) -/
-def ArrOK : Term → Bool
-  | .node op args _ => (args.map ArrOK).all id && (op != .arrayValue || args.length == 1)
-
-theorem ArrOK_node (op : Op) (args : List Term) (p : Payload) :
-    ArrOK (.node op args p) = ((args.map ArrOK).all id && (op != .arrayValue || args.length == 1)) := by
-  rw [ArrOK]
-
-theorem ArrOK_child {op args p} (h : ArrOK (.node op args p) = true) : ∀ a ∈ args, ArrOK a = true := by
-  intro a ha
-  rw [ArrOK_node] at h
-  simp only [Bool.and_eq_true, List.all_eq_true, List.mem_map] at h
-  exact h.1 _ ⟨a, ha, rfl⟩
-
-theorem ArrOK_here {op args p} (h : ArrOK (.node op args p) = true) : op = .arrayValue → args.length = 1 := by
-  intro ho
-  rw [ArrOK_node] at h
-  simp only [Bool.and_eq_true, Bool.or_eq_true, bne_iff_ne, ne_eq, beq_iff_eq] at h
-  rcases h.2 with h | h
-  · exact absurd ho h
-  · exact h
-
 /-- a type-correct map: every value is well-typed and has the type of its key -/
 def TyMap (σ : TMap) : Prop := ∀ kv ∈ σ, kv.2.wt = true ∧ kv.2.typeOf = kv.1.typeOf
 
@@ -68,8 +45,7 @@ theorem typeOfNode_function_some {f : Sym} {ts : List (Option Ty)}
   · cases h
 
 theorem build_type {h : FnHandler} (hh : HandlerTyped h) {op : Op} {p : Payload} {args as' : List Term}
-    (hwt : (Term.node op args p).wt = true) (hn : normalNode op p args = true) (hs : SameTypes args as')
-    (harr : op = .arrayValue → args.length = 1) :
+    (hwt : (Term.node op args p).wt = true) (hn : normalNode op p args = true) (hs : SameTypes args as') :
     (build h op p as').wt = true ∧ (build h op p as').typeOf = (Term.node op args p).typeOf := by
   unfold build
   split
@@ -79,17 +55,16 @@ theorem build_type {h : FnHandler} (hh : HandlerTyped h) {op : Op} {p : Payload}
       have h1 := typeOfNode_function_some (Term.wt_typeOf hwt)
       have := hh f as' r hr hs.wt (by rw [hs.ty]; exact h1.1)
       rw [typeOf_node, h1.2]; exact this
-    · exact rebuild_type hwt hn hs harr
-  · exact rebuild_type hwt hn hs harr
+    · exact rebuild_type hwt hn hs
+  · exact rebuild_type hwt hn hs
 
 theorem substG_type (ms : Bool) {h : FnHandler} (hh : HandlerTyped h) :
-    (t : Term) → ∀ σ : TMap, TyMap σ → t.wt = true → normal t = true → ArrOK t = true →
+    (t : Term) → ∀ σ : TMap, TyMap σ → t.wt = true → normal t = true →
       (substG ms h σ t).wt = true ∧ (substG ms h σ t).typeOf = t.typeOf
-  | .node op args p, σ, hσ, hwt, hn, ha => by
+  | .node op args p, σ, hσ, hwt, hn => by
     have ih : ∀ a ∈ args, (substG ms h (bodyMap σ op p) a).wt = true ∧
         (substG ms h (bodyMap σ op p) a).typeOf = a.typeOf :=
       fun a hm => substG_type ms hh a _ (hσ.bodyMap op p) (Term.wt_child hwt a hm) (normal_child hn a hm)
-        (ArrOK_child ha a hm)
     have hs : SameTypes args (args.map (substG ms h (bodyMap σ op p))) := by
       constructor
       · intro a' ha'
@@ -97,7 +72,7 @@ theorem substG_type (ms : Bool) {h : FnHandler} (hh : HandlerTyped h) :
         exact (ih a hm).1
       · rw [List.map_map]
         exact List.map_congr_left (fun a hm => (ih a hm).2)
-    have hb := build_type hh hwt (normal_here hn) hs (ArrOK_here ha)
+    have hb := build_type hh hwt (normal_here hn) hs
     rw [substG]
     cases ms
     · simp only [Bool.false_eq_true, if_false]
@@ -119,12 +94,12 @@ theorem wf_real (q : Rat) : (Term.real q).wf = true := by
 /-- `rebuild` on well-formed new children of the old types is well-formed -/
 theorem rebuild_wf {op : Op} {p : Payload} {args as' : List Term}
     (hwf : (Term.node op args p).wf = true) (hn : normalNode op p args = true) (hs : SameTypes args as')
-    (hwf' : ∀ a ∈ as', a.wf = true) (harr : op = .arrayValue → args.length = 1) :
+    (hwf' : ∀ a ∈ as', a.wf = true) :
     (rebuild op p as').wf = true := by
   have hwt := Term.wf_wt _ hwf
-  have ht := (rebuild_type hwt hn hs harr).1
+  have ht := (rebuild_type hwt hn hs).1
   obtain ⟨_, hshape, _⟩ := Term.wf_node.mp hwf
-  have hsh := rebuild_shape hwt hn hs harr
+  have hsh := rebuild_shape hwt hn hs
   generalize rebuild op p as' = r at ht hsh
   cases hsh with
   | node =>
@@ -143,6 +118,28 @@ theorem rebuild_wf {op : Op} {p : Payload} {args as' : List Term}
     rcases hx with rfl | rfl
     · exact hwf' _ (by simp)
     · exact wf_real _
+  | array ho =>
+    subst ho
+    match as', hwf', ht with
+    | [], _, ht =>
+      have e : mkArray p [] = .node .arrayValue [] p := rfl
+      rw [e] at ht ⊢
+      rw [Term.wf_node]
+      exact ⟨(fun _ h => nomatch h), rfl, Term.wt_typeOf ht⟩
+    | d' :: rest', hwf', ht =>
+      rw [mkArray_cons] at ht ⊢
+      rw [Term.wf_node]
+      refine ⟨?_, rfl, Term.wt_typeOf ht⟩
+      intro x hx
+      rcases List.mem_cons.mp hx with rfl | hx
+      · exact hwf' _ (by simp)
+      · obtain ⟨kv, hkv, hx⟩ := mem_unpairs hx
+        have := pyDict_all (fun k => k.wf = true) (fun v => v.wf = true)
+          (fun q hq => ⟨hwf' _ (List.mem_cons_of_mem _ (mem_pairsOf hq).1),
+            hwf' _ (List.mem_cons_of_mem _ (mem_pairsOf hq).2)⟩) kv (List.mem_filter.mp hkv).1
+        rcases hx with rfl | rfl
+        · exact this.1
+        · exact this.2
 
 def HandlerWf (h : FnHandler) : Prop :=
   ∀ f as r, h f as = some r → (∀ a ∈ as, a.wf = true) → as.map Term.typeOf = f.params.map some → r.wf = true
@@ -162,17 +159,16 @@ theorem WfMap.bodyMap {σ : TMap} (h : WfMap σ) (op : Op) (p : Payload) : WfMap
   · exact h
 
 theorem substG_wf (ms : Bool) {h : FnHandler} (hh : HandlerTyped h) (hw : HandlerWf h) :
-    (t : Term) → ∀ σ : TMap, WfMap σ → t.wf = true → normal t = true → ArrOK t = true →
+    (t : Term) → ∀ σ : TMap, WfMap σ → t.wf = true → normal t = true →
       (substG ms h σ t).wf = true
-  | .node op args p, σ, hσ, hwf, hn, ha => by
+  | .node op args p, σ, hσ, hwf, hn => by
     have hwt := Term.wf_wt _ hwf
     obtain ⟨hchwf, _, _⟩ := Term.wf_node.mp hwf
     have ihw : ∀ a ∈ args, (substG ms h (bodyMap σ op p) a).wf = true :=
-      fun a hm => substG_wf ms hh hw a _ (hσ.bodyMap op p) (hchwf a hm) (normal_child hn a hm) (ArrOK_child ha a hm)
+      fun a hm => substG_wf ms hh hw a _ (hσ.bodyMap op p) (hchwf a hm) (normal_child hn a hm)
     have iht : ∀ a ∈ args, (substG ms h (bodyMap σ op p) a).wt = true ∧
         (substG ms h (bodyMap σ op p) a).typeOf = a.typeOf :=
       fun a hm => substG_type ms hh a _ (hσ.bodyMap op p).tyMap (Term.wt_child hwt a hm) (normal_child hn a hm)
-        (ArrOK_child ha a hm)
     have hs : SameTypes args (args.map (substG ms h (bodyMap σ op p))) := by
       constructor
       · intro a' ha'
@@ -191,8 +187,8 @@ theorem substG_wf (ms : Bool) {h : FnHandler} (hh : HandlerTyped h) (hw : Handle
         · next r hr =>
           have h1 := typeOfNode_function_some (Term.wt_typeOf hwt)
           exact hw _ _ r hr hwf' (by rw [hs.ty]; exact h1.1)
-        · exact rebuild_wf hwf (normal_here hn) hs hwf' (ArrOK_here ha)
-      · exact rebuild_wf hwf (normal_here hn) hs hwf' (ArrOK_here ha)
+        · exact rebuild_wf hwf (normal_here hn) hs hwf'
+      · exact rebuild_wf hwf (normal_here hn) hs hwf'
     rw [substG]
     cases ms
     · simp only [Bool.false_eq_true, if_false]
